@@ -30,7 +30,7 @@ class Lit:
     def __init__(self, kind, value, outcome):
         self.kind = kind
         self.value = value
-        self.key = canon(value)
+        self.key = pull_key(value)      # canonical, but two pulls from one iterator are different values
         self.outcome = outcome
 
     def __repr__(self):
@@ -82,6 +82,169 @@ def norm_bool(sl, v, oc, phi_ok=True):
     return fold_len(v), oc
 
 
+_EXPANDED = ('std::option::Option::<T>::and_then', 'std::result::Result::<T, E>::and_then', 'std::option::Option::<T>::filter')
+_PASSTHROUGH = ('std::option::Option::<T>::ok_or', 'std::option::Option::<T>::ok_or_else', 'std::option::Option::<T>::map',
+                'std::result::Result::<T, E>::map', 'std::result::Result::<T, E>::map_err', 'std::result::Result::<T, E>::ok',
+                'std::option::Option::<T>::inspect', 'std::result::Result::<T, E>::inspect', 'std::result::Result::<T, E>::inspect_err')
+_PAYLOAD_KEEPING = ('std::result::Result::<T, E>::ok', 'std::option::Option::<T>::ok_or', 'std::option::Option::<T>::ok_or_else',
+                    'std::result::Result::<T, E>::map_err', 'std::result::Result::<T, E>::inspect_err', 'std::option::Option::<T>::inspect',
+                    'std::result::Result::<T, E>::inspect')
+
+
+def variant_lit(o, is_option, success):
+    """the decision "o is Some / Ok" (success) or "o is None / Err", stated on the value behind adapters that keep
+    success and failure apart the same way: `r.ok()` is Some iff r is Ok, `o.ok_or(e)` is Ok iff o is Some"""
+    for _ in range(8):
+        if o[0] == 'call' and o[1] in _PAYLOAD_KEEPING and o[2]:
+            is_option = o[1].startswith('std::option::Option::')
+            o = o[2][0]
+            continue
+        if o[0] == 'call' and o[1] in ('std::option::Option::<T>::map', 'std::result::Result::<T, E>::map') and len(o[2]) == 2:
+            o = o[2][0]
+            continue
+        break
+    names = ('Some', 'None') if is_option else ('Ok', 'Err')
+    return Lit('variant', o, frozenset([names[0] if success else names[1]]))
+
+
+_SUCC = {'Some': 'Ok', 'None': 'Err', 'Ok': 'Some', 'Err': 'None'}
+
+
+def peel_variant(l, prog=None):
+    """a decision about the variant of `r.ok()` / `o.ok_or(e)` / `r.map_err(f)` / `x.map(f)` restated on r / o / x itself
+    (Some <-> Ok, None <-> Err): the same literal whichever adapter the code matched through; `x?` continuing / breaking
+    is x being Ok / Err (Some / None)"""
+    o, names = l.value, l.outcome
+    for _ in range(8):
+        if o[0] == 'call' and o[1] == 'std::ops::Try::branch' and len(o[2]) == 1 and names and names <= {'Continue', 'Break'}:
+            inner = o[2][0]
+            k = _known_kind(prog, inner) if prog is not None else None
+            if k is None and inner[0] == 'call':
+                k = True if inner[1].startswith('std::option::Option::') else False if inner[1].startswith('std::result::Result::') else None
+            if k is None:
+                break
+            tr = {'Continue': 'Some', 'Break': 'None'} if k else {'Continue': 'Ok', 'Break': 'Err'}
+            o, names = inner, frozenset(tr[n] for n in names)
+            continue
+        if not (o[0] == 'call' and o[2]) or not names <= {'Some', 'None', 'Ok', 'Err'}:
+            break
+        if o[1] in ('std::result::Result::<T, E>::ok', 'std::option::Option::<T>::ok_or', 'std::option::Option::<T>::ok_or_else'):
+            o, names = o[2][0], frozenset(_SUCC[n] for n in names)
+        elif o[1] in ('std::result::Result::<T, E>::map_err', 'std::result::Result::<T, E>::inspect_err', 'std::option::Option::<T>::inspect',
+                      'std::result::Result::<T, E>::inspect') or \
+                (o[1] in ('std::option::Option::<T>::map', 'std::result::Result::<T, E>::map') and len(o[2]) == 2):
+            o = o[2][0]
+        else:
+            break
+    return l if o is l.value else Lit('variant', o, names)
+
+
+def drop_adapters(v, depth=0):
+    """v with every `unwrap(adapter(x))` inside it rewritten to `unwrap(x)` for adapters that keep the success payload
+    (`.ok()`, ok_or, map_err, filter, ..): one normal form of "the payload of x" however it was passed along"""
+    if not isinstance(v, tuple) or not v or depth > 40:
+        return v
+    if v[0] in ('const', 'param', 'fnitem', 'constitem', 'unknown', 'closure_env', 'upvar'):
+        return v
+    if v[0] == 'unwrap' and len(v) == 2:
+        o = v[1]
+        for _ in range(8):
+            if o[0] == 'call' and (o[1] in _PAYLOAD_KEEPING or o[1] == 'std::option::Option::<T>::filter') and o[2]:
+                o = o[2][0]
+                continue
+            break
+        return ('unwrap', drop_adapters(o, depth + 1))
+    return tuple(drop_adapters(x, depth + 1) if isinstance(x, tuple) else x for x in v)
+
+
+def payload_nf(sl, o):
+    """success payload of an Option / Result in normal form (adapters that keep the payload peeled)"""
+    for _ in range(8):
+        if o[0] == 'call' and (o[1] in _PAYLOAD_KEEPING or o[1] == 'std::option::Option::<T>::filter') and o[2]:
+            o = o[2][0]
+            continue
+        break
+    return drop_adapters(sl.mk_unwrap(o, 1))
+
+
+_ON_SUCCESS = {'and_then': 1, 'map': 1, 'filter': 1, 'is_some_and': 1, 'is_ok_and': 1, 'is_none_or': 1, 'inspect': 1, 'map_or': 2,
+               'map_or_else': 2}
+_ON_FAILURE = {'or_else': 1, 'unwrap_or_else': 1, 'ok_or_else': 1, 'map_err': 1, 'inspect_err': 1, 'map_or_else': 1, 'is_err_and': 1}
+
+
+def combinator_use(prog, sl, fn, parent, c):
+    """closure fn is handed to call c of parent: ('success' | 'failure', receiver value, payload the closure receives
+    as its argument | None) when c is an Option / Result combinator that runs the closure only when its receiver is
+    Some / Ok (on the payload) resp. None / Err; else None"""
+    n = c.name or c.decl or ''
+    if not n.startswith(('std::option::Option::', 'std::result::Result::')) or len(c.args) < 2:
+        return None
+    meth = n.rsplit('::', 1)[-1]
+    which = []
+    for i, a in enumerate(c.args):
+        v = strip(sl.operand(parent, a))
+        if v[0] == 'closure' and v[1] == fn.path:
+            which.append(i)
+    if len(which) != 1 or which[0] == 0:
+        return None
+    recv = sl.operand(parent, c.args[0])
+    if _ON_SUCCESS.get(meth) == which[0]:
+        return 'success', recv, payload_nf(sl, recv)
+    if _ON_FAILURE.get(meth) == which[0]:
+        return 'failure', recv, None
+    return None
+
+
+def _known_kind(prog, v):
+    """True: v is an Option, False: a Result, None: not known"""
+    if v[0] == 'agg' and v[1] in ('std::option::Option', 'std::result::Result'):
+        return v[1] == 'std::option::Option'
+    if v[0] == 'call':
+        c = call_of(prog, v)
+        ty = (c.dty or '') if c is not None else ''
+        ty = ty.lstrip('&')
+        if ty.startswith('std::option::Option<'):
+            return True
+        if ty.startswith('std::result::Result<'):
+            return False
+    return None
+
+
+def success_ways(PC, v, depth=0):
+    """the ways an Option / Result valued expression is Some / Ok, as a disjunction of conjunctions of literals
+    ([] = never, [()] = always); None when nothing is known.  Counterpart of failure_ways."""
+    sl = PC.sl
+    if depth > 8 or not isinstance(v, tuple) or not v:
+        return None
+    v = with_statics(PC.prog, sl, v)
+    if v[0] == 'agg' and v[1] in ('std::option::Option', 'std::result::Result'):
+        return [()] if v[2] in ('Some', 'Ok') else []
+    if v[0] != 'call' or not v[2]:
+        return None
+    n, a = v[1], v[2]
+    if n.endswith(('bool>::then', 'bool>::then_some')) or n in ('core::bool::<impl bool>::then', 'core::bool::<impl bool>::then_some'):
+        return PC._ways(a[0], True) if len(a) == 2 else None
+    if n in _PASSTHROUGH:
+        return success_ways(PC, a[0], depth + 1)
+    if n == 'std::option::Option::<T>::filter' and len(a) == 2:
+        inner = success_ways(PC, a[0], depth + 1)
+        pred = PC.closure_ways(a[1], (payload_nf(sl, a[0]),), True)
+        if inner is None or pred is None:
+            return None
+        return [tuple(w) + tuple(x) for w in inner for x in pred]
+    if n in ('std::option::Option::<T>::and_then', 'std::result::Result::<T, E>::and_then') and len(a) == 2:
+        inner = success_ways(PC, a[0], depth + 1)
+        body = sl.apply_closure(strip(a[1]), (payload_nf(sl, a[0]),))
+        rest = success_ways(PC, body, depth + 1) if body is not None else None
+        if inner is None or rest is None:
+            return None
+        return [tuple(w) + tuple(x) for w in inner for x in rest]
+    k = _known_kind(PC.prog, v)
+    if k is None:
+        return None
+    return [(variant_lit(v, k, True),)]
+
+
 class PathConds:
     def __init__(self, prog, sl, limit=3000):
         self.prog = prog
@@ -90,6 +253,7 @@ class PathConds:
         self._cache = {}
         self._bpaths = {}
         self._ctx = {}
+        self._ctx_args = {}
         self._expanding = []
 
     # ---- values on a path ---------------------------------------------------------------------------
@@ -151,7 +315,23 @@ class PathConds:
                     names |= {n for v, n in vmap.items() if v not in listed}
                 else:
                     names.add(vmap.get(lab, str(lab)))
-            return Lit('variant', self.sl.place(fn, place), frozenset(names))
+            l = peel_variant(Lit('variant', self.sl.place(fn, place), frozenset(names)), self.prog)
+            # the variant of a value built by and_then / filter / bool::then: the ways it is Some / Ok (resp. None / Err)
+            v = l.value
+            if v[0] == 'call' and v[2] and (v[1] in _EXPANDED or v[1].endswith(('bool>::then', 'bool>::then_some'))) and len(self._expanding) < 3:
+                ways = None
+                self._expanding.append('<variant>')
+                try:
+                    if l.outcome in (frozenset(['Some']), frozenset(['Ok'])):
+                        ways = success_ways(self, v)
+                    elif l.outcome in (frozenset(['None']), frozenset(['Err'])):
+                        ways = failure_ways(self, v)
+                finally:
+                    self._expanding.pop()
+                if ways is not None and len(ways) <= 16:
+                    ways = [tuple(w) for w in ways if consistent(w)]
+                    return ('alts', ways) if ways else False
+            return l
         val = self.resolve(fn, t['o'], path)
         if t.get('oty') == 'bool':
             if labels == ['else'] and listed == [0]:
@@ -176,7 +356,23 @@ class PathConds:
     def bool_literal(self, val, oc):
         """the decision `val == oc` of a boolean value: Lit | None (always so) | False (never so) | ('alts', [conjunction..])
         when val is a call of a workspace predicate that decides by control flow"""
+        val = with_statics(self.prog, self.sl, val)
         v2, oc2 = norm_bool(self.sl, val, oc, phi_ok=False)
+        ways = self.combinator_ways(v2, oc2)
+        if ways is not None:
+            ways = [w for w in ways if consistent(w)]
+            return ('alts', ways) if ways else False
+        if v2[0] == 'call' and v2[1] in self.prog.fns and self.prog.fns[v2[1]].kind == 'Closure' and len(v2[2]) == 2 \
+                and strip(v2[2][0])[0] == 'closure' and strip(v2[2][1])[0] == 'tuple' and len(self._expanding) < 3:
+            # a boolean closure called directly (`let only_digits = |s: &str| ..; if only_digits(x)`): what it returns
+            self._expanding.append('<closure-call>')
+            try:
+                ways = self.closure_ways(v2[2][0], tuple(strip(v2[2][1])[1]), oc2)
+            finally:
+                self._expanding.pop()
+            if ways is not None:
+                ways = [tuple(w) for w in ways if consistent(w)]
+                return ('alts', ways) if ways else False
         if v2[0] == 'call' and v2[1] in self.prog.fns:
             # a predicate function deciding by control flow: the ways through its body that return this outcome
             alts = self.pred_alts(v2, oc2)
@@ -187,13 +383,76 @@ class PathConds:
             return None if val[1] == oc else False
         return Lit('bool', val, oc)
 
+    def _ways(self, val, oc):
+        """the ways `val == oc`, as a disjunction of conjunctions"""
+        lit = self.bool_literal(val, oc)
+        if lit is False:
+            return []
+        if lit is None:
+            return [()]
+        if isinstance(lit, tuple):
+            return [tuple(a) for a in lit[1]]
+        return [(lit,)]
+
+    def combinator_ways(self, v, oc, depth=0):
+        """a boolean produced by an Option / Result combinator, as the ways it has the value oc:
+            o.is_some_and(p) / r.is_ok_and(p)   true: o is Some(x) and p(x);  false: o is None, or Some(x) and !p(x)
+            o.is_none_or(p)                     true: None, or Some(x) and p(x)
+            o.map_or(d, p)                      the default d when None, else p(x)
+            o.is_some() / is_none() / r.is_ok() / is_err()
+        with `o is Some` stated on the Result behind `.ok()` (`r.ok()` is Some iff r is Ok) and x in the success-payload
+        normal form, so that the same literals arise as from `match` / `if let` / `?` spellings; None: not such a value"""
+        if v[0] != 'call' or not v[2] or len(self._expanding) > 6:
+            return None
+        n, a = v[1], v[2]
+        opt = n.startswith('std::option::Option::')
+        if not opt and not n.startswith('std::result::Result::'):
+            return None
+        meth = n.rsplit('::', 1)[-1]
+        if meth in ('is_some', 'is_ok', 'is_none', 'is_err') and len(a) == 1:
+            return [(variant_lit(a[0], opt, (meth in ('is_some', 'is_ok')) == oc),)]
+        if meth in ('is_some_and', 'is_ok_and', 'is_none_or') and len(a) == 2:
+            default, cl = (meth == 'is_none_or'), a[1]
+        elif meth == 'map_or' and len(a) == 3 and strip(a[1])[0] == 'const' and isinstance(strip(a[1])[1], bool):
+            default, cl = strip(a[1])[1], a[2]
+        else:
+            return None
+        inner = self.closure_ways(cl, (payload_nf(self.sl, a[0]),), oc)
+        if inner is None:
+            return None
+        some = variant_lit(a[0], opt, True)
+        out = [(some,) + tuple(w) for w in inner]
+        if default == oc:
+            out.insert(0, (variant_lit(a[0], opt, False),))
+        return out
+
     def pred_alts(self, v, oc, depth=0):
         """`helper(args) == oc` for a workspace function returning bool, as the disjunction of the ways through its
         body that return oc: [conjunction of literals in the caller's terms, ...]; None when they cannot be enumerated.
         `fn ok(r, v) -> bool { matches!(Regex::new(r).and_then(|r| r.is_match(v)), Ok(true)) }` tested true yields
         the single way `is_match(unwrap(Regex::new(r)), v)` is Ok and its payload is true."""
         g = self.prog.fns.get(v[1])
-        if g is None or g.kind == 'Closure' or g.ret != 'bool' or g.partial_defs(0) or g.path in self._expanding or len(self._expanding) > 2:
+        if g is None or g.kind == 'Closure':
+            return None
+        return self._body_alts(g, {(g.path, i): a for i, a in enumerate(v[2]) if i < g.argc}, oc)
+
+    def closure_ways(self, cl, args, oc):
+        """the ways the boolean closure `cl`, applied to `args`, returns oc: its returned expression, or — when the body
+        decides by control flow (`matches!`, `if`, early return) — the ways through the body that return oc"""
+        cl = strip(cl)
+        body = self.sl.apply_closure(cl, tuple(args))
+        if body is None:
+            return None
+        b2, _ = norm_bool(self.sl, body, oc, phi_ok=False)
+        g = self.prog.fns.get(cl[1]) if cl[0] == 'closure' else None
+        if g is not None and (_opaque_phi(b2) or b2[0] == 'phi'):
+            alts = self._body_alts(g, {(g.path, 1 + i): a for i, a in enumerate(args)}, oc)
+            if alts is not None:
+                return [tuple(a) for a in alts]
+        return self._ways(body, oc)
+
+    def _body_alts(self, g, m, oc):
+        if g.ret != 'bool' or g.partial_defs(0) or g.path in self._expanding or len(self._expanding) > 2:
             return None
         live = g.reachable(0)
         defs = [d for d in g.whole_defs(0) if d[1] in live]
@@ -202,7 +461,6 @@ class PathConds:
             return None
         if any((g.reachable(b) - {b}) & set(blocks) or g.in_loop(b) for b in blocks):
             return None     # a later assignment would override this one
-        m = {(g.path, i): a for i, a in enumerate(v[2]) if i < g.argc}
         out = []
         self._expanding.append(g.path)
         try:
@@ -317,7 +575,7 @@ class PathConds:
         parent, cb = creation_site(self.prog, fn)
         res = [()]
         if parent is not None:
-            at, extras = cb, [()]
+            at, extras, binds = cb, [()], []
             users = [c for c in parent.calls if not c.indirect and any(g is fn for g in self.prog.fn_item_args(c))]
             if len(users) == 1 and parent.dominates(cb, users[0].bb):
                 # the closure value is moved into exactly one call: it cannot run unless that call is reached
@@ -340,7 +598,30 @@ class PathConds:
                         self._ctx[fn.path] = res
                         return res
                     extras = self._then_ways(self.sl.operand(parent, c.args[0]))
+                else:
+                    # `opt.and_then(|x| ..)`, `opt.filter(|x| ..)`, `res.map(|x| ..)`, `opt.unwrap_or_else(|| ..)`: the closure
+                    # runs only when the receiver is Some / Ok (resp. None / Err), on the receiver's payload
+                    cu = combinator_use(self.prog, self.sl, fn, parent, c)
+                    if cu is not None:
+                        mode, recv, payload = cu
+                        ways = success_ways(self, recv) if mode == 'success' else failure_ways(self, recv)
+                        if ways is not None:
+                            extras = [tuple(w) for w in ways if consistent(w)]
+                        if payload is not None and strip(payload)[0] not in ('const', 'unknown'):
+                            binds = [(pull_key(strip(payload)), ('param', fn.path, 1, fn.local_name(2)))]
             res = [p + extra for p in self.paths(parent, at) for extra in extras]
+            if binds:
+                # what is known about the payload is known about the parameter that receives it (both statements are
+                # kept: the one in the enclosing function's terms and the one in the closure's)
+                out = []
+                for p in res:
+                    extra = []
+                    for l in p:
+                        rv = _rebind(l.value, binds)
+                        if rv != l.value:
+                            extra.append(Lit(l.kind, rv, l.outcome))
+                    out.append(tuple(p) + tuple(extra))
+                res = out
         self._ctx[fn.path] = res
         return res
 
@@ -363,18 +644,24 @@ class PathConds:
         sites = [cs for cs in refs if not cs.indirect and cs.name == fn.path and cs.fn.path != fn.path]
         if not sites or len(sites) != len(refs):
             return [()]
-        out = []
+        out, maps = [], []
         for cs in sites:
             g = cs.fn
             binds = []
+            m = {}
             for i, a in enumerate(cs.args[:fn.argc]):
+                m[(fn.path, i)] = self.sl.operand(g, a)
                 av = strip(self.sl.operand(g, a))
                 if av[0] not in ('const', 'unknown'):
-                    binds.append((canon(av), ('param', fn.path, i, fn.local_name(i + 1))))
+                    binds.append((pull_key(av), ('param', fn.path, i, fn.local_name(i + 1))))
             for p in self.paths(g, cs.bb):
-                out.append(tuple(Lit(l.kind, _rebind(l.value, binds), l.outcome) for l in p))
+                # what the site has decided, on the function's parameters — and, where that differs, as the site said it
+                reb = [Lit(l.kind, _rebind(l.value, binds), l.outcome) for l in p]
+                out.append(tuple(reb) + tuple(l for l, r in zip(p, reb) if r.key != l.key))
+                maps.append(m)
             if len(out) > self.limit:
                 return [()]
+        self._ctx_args[fn.path] = maps
         return out
 
     def paths(self, fn, bb):
@@ -386,14 +673,36 @@ class PathConds:
             return lp
         if len(lp) * len(ctx) > self.limit:
             ctx = [()]
-        return [c + p for c in ctx for p in lp]
+        maps = self._ctx_args.get(fn.path)
+        if not maps or len(maps) != len(ctx):
+            return [c + p for c in ctx for p in lp]
+        # a private function reached from a call site: what its own decisions say about the values passed at that site
+        # (`fn pick(matched: bool, ..) { if matched { .. } }` called as `pick(r.is_match(v).unwrap_or(false), ..)`)
+        out = []
+        for c, m in zip(ctx, maps):
+            for p in lp:
+                extra = []
+                for l in p:
+                    sv = subst(l.value, m, self.sl)
+                    if sv == l.value:
+                        continue
+                    if l.kind == 'bool':
+                        r = self.bool_literal(sv, l.outcome)
+                        if isinstance(r, Lit):
+                            extra.append(r)
+                        elif isinstance(r, tuple) and len(r[1]) == 1:
+                            extra.extend(r[1][0])
+                    else:
+                        extra.append(peel_variant(Lit(l.kind, sv, l.outcome)) if l.kind == 'variant' else Lit(l.kind, sv, l.outcome))
+                out.append(tuple(c) + tuple(p) + tuple(extra))
+        return out
 
 
 def _rebind(v, binds):
     """v with every occurrence of a bound argument value replaced by the parameter it is passed as"""
     if not isinstance(v, tuple) or not v:
         return v
-    cv = canon(strip(v))
+    cv = pull_key(strip(v))
     for k, pv in binds:
         if cv == k:
             return pv
@@ -431,7 +740,17 @@ def holds_on_all(paths, pred):
 def region(prog, root):
     """functions of root's crate that root may enter: its closures, private helpers, fn items handed to adapters"""
     fs = prog.reach([root], stop=lambda f: f.crate != root.crate)
-    return [f for f in fs.values() if f.crate == root.crate]
+    out = [f for f in fs.values() if f.crate == root.crate]
+    # statics the region refers to (a regex compiled once into a lazily initialised static): their initialisers are
+    # part of what the root computes with
+    for _ in range(3):
+        more = [s for s in static_fns(prog, out) if s not in out and s.crate == root.crate]
+        if not more:
+            break
+        for f in prog.reach(more, stop=lambda f: f.crate != root.crate).values():
+            if f.crate == root.crate and f not in out:
+                out.append(f)
+    return out
 
 
 def lift(prog, sl, f, vals, top, depth=4):
@@ -444,6 +763,14 @@ def lift(prog, sl, f, vals, top, depth=4):
     if not has_param or f.path == top.path or depth <= 0:
         return [(f, vals)]
     sites = [cs for cs in prog.callers().get(f.path, []) if not cs.indirect and cs.name == f.path and cs.fn.path != f.path]
+    if not sites and f.kind == 'Closure':
+        # a closure run by an Option / Result combinator on the payload of its receiver: `opt.and_then(|x| g(x))`
+        parent, cb = creation_site(prog, f)
+        users = [c for c in parent.calls if not c.indirect and any(g is f for g in prog.fn_item_args(c))] if parent is not None else []
+        cu = combinator_use(prog, sl, f, parent, users[0]) if len(users) == 1 else None
+        if cu is not None and cu[0] == 'success' and cu[2] is not None:
+            m = {(f.path, 1): cu[2]}
+            return lift(prog, sl, parent, [subst(v, m, sl) for v in vals], top, depth - 1)
     if not sites:
         return [(f, vals)]
     out = []
@@ -478,11 +805,15 @@ def is_digits_test(prog, sl, v, parsed):
 
 
 def is_nondigit_test(prog, sl, v, parsed):
-    """v = parsed.bytes()/chars().any(|c| !c.is_ascii_digit())  — false exactly when all are digits (De Morgan)"""
-    if not (v[0] == 'call' and v[1] == IT + 'any' and len(v[2]) == 2):
-        return False
-    src, cl = strip(v[2][0]), strip(v[2][1])
-    if not (src[0] == 'call' and src[1] in ('core::str::<impl str>::bytes', 'core::str::<impl str>::chars') and same(src[2][0], parsed)):
+    """v = parsed.bytes()/chars().any(|c| !c.is_ascii_digit()) or parsed.contains(|c: char| !c.is_ascii_digit()) — false
+    exactly when all are digits (De Morgan; a non-ASCII char consists of bytes none of which is an ASCII digit)"""
+    if v[0] == 'call' and v[1] == 'core::str::<impl str>::contains' and len(v[2]) == 2 and same(v[2][0], parsed):
+        cl = strip(v[2][1])
+    elif v[0] == 'call' and v[1] == IT + 'any' and len(v[2]) == 2:
+        src, cl = strip(v[2][0]), strip(v[2][1])
+        if not (src[0] == 'call' and src[1] in ('core::str::<impl str>::bytes', 'core::str::<impl str>::chars') and same(src[2][0], parsed)):
+            return False
+    else:
         return False
     if cl[0] == 'closure' and cl[1] in prog.fns:
         body = prog.fns[cl[1]]
@@ -619,8 +950,31 @@ def match_literal(sl, lit):
         return None
     if lit.kind != 'bool':
         return None
-    if v[0] == 'call' and v[1].endswith('unwrap_or') and len(v[2]) == 2 and strip(v[2][1]) == ('const', False):
-        v = sl.mk_unwrap(v[2][0], 1)
+    # normal form of the tested boolean: the success payload of the match result, whichever way it was taken out of
+    # the Result (unwrap_or(false), unwrap_or_default(), `== Ok(true)`, a `map` / `and_then` over the compiled regex)
+    for _ in range(6):
+        if v[0] == 'call' and v[1].endswith('unwrap_or') and len(v[2]) == 2 and strip(v[2][1]) == ('const', False):
+            v = sl.mk_unwrap(v[2][0], 1)
+        elif v[0] == 'call' and v[1] in ('std::result::Result::<T, E>::unwrap_or_default', 'std::option::Option::<T>::unwrap_or_default') and len(v[2]) == 1:
+            v = sl.mk_unwrap(v[2][0], 1)       # bool::default() is false
+        elif v[0] == 'call' and v[1].endswith('::eq') and len(v[2]) == 2:
+            # `r.is_match(v).ok() == Some(true)` / `r.is_match(v) == Ok(true)`: true iff the match result is Ok(true)
+            nv = None
+            for x, y in (v[2], v[2][::-1]):
+                y = strip(y)
+                if y[0] == 'agg' and y[2] in ('Some', 'Ok') and len(y[3]) == 1 and strip(y[3][0][1]) == ('const', True):
+                    nv = payload_nf(sl, x)
+                    break
+            if nv is None:
+                break
+            v = nv
+        elif v[0] == 'unwrap':
+            nv = payload_nf(sl, v[1])
+            if nv == v:
+                break
+            v = nv
+        else:
+            break
     if v[0] != 'unwrap':
         return None
     m = strip(v)
@@ -657,7 +1011,7 @@ def display_pieces(sl, dsp):
     import re
     v = strip(sl.local(dsp, 0))
     if v[0] != 'call' or len(v[2]) != 2:
-        return None
+        return display_pieces_seq(sl.prog, sl, dsp)
     n = re.sub(r'<[^<>]*>', '', v[1])
     if n.endswith(('Formatter::::write_fmt', 'Formatter::::write_str', 'Formatter::::pad', 'Formatter::write_fmt', 'Formatter::write_str', 'Formatter::pad')):
         text = v[2][1]
@@ -942,7 +1296,13 @@ def stream_reads(prog, sl, g):
     private helpers (generic ones instantiated at their call): ([(type read, Eff)], [Eff of reads that happen only on
     some runs])"""
     from .lib.effects import Effects, Link
-    E = Effects(prog, sl, vocab={PARSE_STREAM: ('STREAM', 0)})
+    vocab = {PARSE_STREAM: ('STREAM', 0)}
+    # `<T as Parse>::parse(input)` for a type T outside the workspace is what `input.parse::<T>()` runs
+    for h in region(prog, g):
+        for c in h.calls:
+            if c.decl == 'syn::parse::Parse::parse' and c.res and c.res not in prog.fns and len(c.args) == 1:
+                vocab[c.res] = ('STREAM', 0)
+    E = Effects(prog, sl, vocab=vocab)
     must = [e for e in E.expand(g, 'must') if e.kind == 'STREAM']
     may = [e for e in E.expand(g, 'may') if e.kind == 'STREAM']
 
@@ -988,6 +1348,7 @@ def failure_ways(PC, v, depth=0):
     sl = PC.sl
     if depth > 8 or not isinstance(v, tuple) or not v:
         return None
+    v = with_statics(PC.prog, sl, v)
     if v[0] == 'agg' and v[1] in ('std::option::Option', 'std::result::Result'):
         return [()] if v[2] in ('None', 'Err') else []
     if v[0] == 'phi':
@@ -1006,11 +1367,25 @@ def failure_ways(PC, v, depth=0):
         if isinstance(lit, tuple):
             return [tuple(x) for x in lit[1]]
         return [(lit,)]
-    passthrough = ('std::option::Option::<T>::ok_or', 'std::option::Option::<T>::ok_or_else', 'std::option::Option::<T>::map',
-                   'std::result::Result::<T, E>::map', 'std::result::Result::<T, E>::map_err', 'std::result::Result::<T, E>::ok',
-                   'std::option::Option::<T>::inspect', 'std::result::Result::<T, E>::inspect', 'std::result::Result::<T, E>::inspect_err')
-    if n in passthrough:
+    if n in _PASSTHROUGH:
         return failure_ways(PC, a[0], depth + 1)
+    if n == 'std::option::Option::<T>::filter' and len(a) == 2:
+        # None when the receiver is None, or it is Some(x) and the predicate is false on x
+        inner, some = failure_ways(PC, a[0], depth + 1), success_ways(PC, a[0], depth + 1)
+        pred = PC.closure_ways(a[1], (payload_nf(sl, a[0]),), False)
+        if inner is None or some is None or pred is None:
+            return None
+        return [tuple(w) for w in inner] + [tuple(w) + tuple(x) for w in some for x in pred]
+    if n in ('std::option::Option::<T>::and_then', 'std::result::Result::<T, E>::and_then') and len(a) == 2:
+        inner, some = failure_ways(PC, a[0], depth + 1), success_ways(PC, a[0], depth + 1)
+        body = sl.apply_closure(strip(a[1]), (payload_nf(sl, a[0]),))
+        rest = failure_ways(PC, body, depth + 1) if body is not None else None
+        if inner is None or some is None or rest is None:
+            return None
+        return [tuple(w) for w in inner] + [tuple(w) + tuple(x) for w in some for x in rest]
+    k = _known_kind(PC.prog, v)
+    if k is not None and depth > 0:
+        return [(variant_lit(v, k, False),)]     # an opaque Option / Result behind a combinator: None / Err, as a decision
     return None
 
 
@@ -1252,3 +1627,1012 @@ def filled_array_reads(fn, sl, cl, v, bb):
         if fn.dominates(cl.inc_bb, jb) and cl.inc_bb != jb:
             return None
     return [val for _, val in base[2]]
+
+
+# ==== robustness round 4 ==============================================================================================
+# ---- values kept in statics -----------------------------------------------------------------------------------------
+# A loop-invariant computation hoisted into a lazily initialised static (`static RX: LazyLock<T> = LazyLock::new(init)`,
+# `static RX: OnceLock<T>` + `RX.get_or_init(init)`) denotes what `init()` returns: the initialiser has no parameters and
+# captures nothing, so its value is the one every call computed before.  The facts name a static at its use only by an
+# allocation id and its type (`{alloc7: &LazyLock<..>}`); which static item that is follows from Rust's scoping: a static
+# declared inside a function can only be named inside that function (its closures and nested items), so among the
+# immutable statics of that type the candidates are those declared at module level and those declared in a function that
+# encloses every user of the id.  Exactly one candidate: that is the one.
+
+_STATIC_PP = None
+LAZY_TYPES = ('std::sync::LazyLock<', 'std::cell::LazyCell<', 'once_cell::sync::Lazy<', 'once_cell::unsync::Lazy<')
+ONCE_TYPES = ('std::sync::OnceLock<', 'std::cell::OnceCell<', 'once_cell::sync::OnceCell<', 'once_cell::unsync::OnceCell<')
+_TABLES = {}
+
+
+def _static_pp(pp):
+    global _STATIC_PP
+    if _STATIC_PP is None:
+        import re
+        _STATIC_PP = re.compile(r'^\{alloc\d+: &(.+)\}$')
+    m = _STATIC_PP.match(pp) if isinstance(pp, str) else None
+    return m.group(1) if m else None
+
+
+def _const_pps(node, out):
+    """pretty-printed forms of the un-named constants used in a MIR fragment"""
+    if isinstance(node, dict):
+        k = node.get('k')
+        if isinstance(k, dict) and 'item' not in k and 'fn' not in k and isinstance(k.get('pp'), str) and k['pp'].startswith('{alloc'):
+            out.append(k['pp'])
+        for x in node.values():
+            if isinstance(x, (dict, list)):
+                _const_pps(x, out)
+    elif isinstance(node, list):
+        for x in node:
+            if isinstance(x, (dict, list)):
+                _const_pps(x, out)
+
+
+def static_table(prog):
+    """{pp of a static reference: (static Fn, [(user Fn, number of occurrences)])} for the references that name exactly
+    one immutable static (see above)"""
+    key = id(prog)
+    if key in _TABLES and _TABLES[key][0] is prog:
+        return _TABLES[key][1]
+    users = {}
+    for g in prog.fns.values():
+        if g.derived or (g.kind or '').startswith('Static'):
+            continue
+        pps = []
+        _const_pps(g.blocks, pps)
+        for pp in pps:
+            if _static_pp(pp) is not None:
+                d = users.setdefault(pp, {})
+                d[g.path] = d.get(g.path, 0) + 1
+    statics = [s for s in prog.fns.values() if (s.kind or '').startswith('Static') and 'mutability: Not' in s.kind]
+    table = {}
+    for pp, us in users.items():
+        ty = _static_pp(pp)
+        ufs = [prog.fns[p] for p in us]
+        if len({g.crate for g in ufs}) != 1:
+            continue
+        cands = []
+        for s in statics:
+            if s.ret != ty or s.crate != ufs[0].crate:
+                continue
+            scope = s.parent if s.parent in prog.fns else None
+            if scope is None and s.path.rsplit('::', 1)[0] in prog.fns:
+                scope = s.path.rsplit('::', 1)[0]
+            if scope is None or all(g.path == scope or g.path.startswith(scope + '::') for g in ufs):
+                cands.append(s)
+        if len(cands) == 1:
+            table[pp] = (cands[0], [(prog.fns[p], n) for p, n in us.items()])
+    _TABLES[key] = (prog, table)
+    return table
+
+
+def _run_init(sl, init):
+    init = strip(init)
+    if init[0] == 'cast':
+        init = strip(init[1])
+    if init[0] == 'closure' and not init[2]:
+        return sl.apply_closure(init, ())
+    if init[0] == 'fnitem' and init[1] in sl.prog.fns and sl.prog.fns[init[1]].argc == 0:
+        return sl.apply_closure(init, ())
+    return None
+
+
+def lazy_content(prog, sl, pp):
+    """what dereferencing the lazily initialised static behind `pp` yields: the value of its initialiser; else None"""
+    row = static_table(prog).get(pp)
+    if row is None:
+        return None
+    s = row[0]
+    if not (s.ret or '').startswith(LAZY_TYPES):
+        return None
+    v = strip(sl.local(s, 0))
+    if v[0] == 'call' and v[1].endswith('::new') and len(v[2]) == 1:
+        return _run_init(sl, v[2][0])
+    return None
+
+
+def once_content(prog, sl, v):
+    """v = ONCE.get_or_init(init) on a write-once static: what init() yields, when every use of that static in the
+    program is a get_or_init with the same initialiser value (whoever comes first, the cell holds that value)"""
+    if not (v[0] == 'call' and v[1].endswith('::get_or_init') and len(v[2]) == 2 and v[2][0][0] == 'constitem'):
+        return None
+    pp = v[2][0][2]
+    row = static_table(prog).get(pp)
+    if row is None or not (row[0].ret or '').startswith(ONCE_TYPES):
+        return None
+    mine = _run_init(sl, v[2][1])
+    if mine is None or any(x[0] in ('param', 'upvar', 'closure_env', 'unknown') for x in walk(mine)):
+        return None
+    for g, n in row[1]:
+        inits = [c for c in g.calls if (c.name or '').endswith('::get_or_init') and len(c.args) == 2
+                 and sl.operand(g, c.args[0]) == ('constitem', None, pp)]
+        if len(inits) != n:
+            return None     # the static is also used in another way (set, take, handed on)
+        for c in inits:
+            other = _run_init(sl, sl.operand(g, c.args[1]))
+            if other is None or canon(other) != canon(mine):
+                return None
+    return mine
+
+
+def with_statics(prog, sl, v, depth=0):
+    """v with references to lazily initialised / write-once statics replaced by the value they hold"""
+    if not isinstance(v, tuple) or not v or depth > 40:
+        return v
+    if v[0] == 'constitem':
+        if v[1] is None and _static_pp(v[2]) is not None:
+            c = lazy_content(prog, sl, v[2])
+            if c is not None:
+                return c
+        return v
+    if v[0] in ('const', 'param', 'fnitem', 'unknown', 'closure_env', 'upvar'):
+        return v
+    if v[0] == 'call' and len(v) > 2 and len(v[2]) == 2 and v[1].endswith('::get_or_init'):
+        c = once_content(prog, sl, v)
+        if c is not None:
+            return c
+    if not any(x[0] == 'constitem' for x in walk(v) if isinstance(x, tuple) and x):
+        return v
+    return tuple(with_statics(prog, sl, x, depth + 1) if isinstance(x, tuple) else x for x in v)
+
+
+def static_fns(prog, fns):
+    """the statics the functions `fns` refer to (resolved as above), with everything their initialisers may enter"""
+    table = static_table(prog)
+    out = []
+    for g in fns:
+        pps = []
+        _const_pps(g.blocks, pps)
+        for pp in pps:
+            row = table.get(pp)
+            if row is not None and row[0] not in out:
+                out.append(row[0])
+    return out
+
+
+# ---- Serialize of a string newtype ------------------------------------------------------------------------------------
+
+def serialize_forms(prog, sl, t):
+    """how `Serialize for t` hands the value to the serializer, derived or hand-written alike: a list with one entry per
+    way serialize returns — 'newtype' for `serializer.serialize_newtype_struct(<constant name>, &self.0)`, 'str' for
+    the stored string itself (`serialize_str(&self.0)`, `self.0.serialize(serializer)`, `collect_str(&self.0)`), else a
+    rendering of the value; None when there is not exactly one impl.  In both accepted forms the only data the
+    serializer sees is field 0 of self, unmodified, and the serializer is the one passed in."""
+    import re
+    from .lib.value import vstr
+    rx = re.escape(t)
+    fs = [f for p, f in prog.fns.items() if re.search(r"Serialize for %s>::serialize$" % rx, p) or re.search(r"^<%s as .*Serialize>::serialize$" % rx, p)]
+    if len(fs) != 1:
+        return None
+    f = fs[0]
+    v = sl.inline_deep(sl.local(f, 0))
+    alts = v[1] if v[0] == 'phi' else [v]
+
+    def stored(x):
+        x = strip(x)
+        return (x[0] == 'field' and x[2] == '0' and is_param(x[1], f, 0)) or self_as_field0(prog, sl, f, x)
+    out = []
+    for a in alts:
+        a = strip(a)
+        form = None
+        if a[0] == 'call':
+            meth = re.sub(r'<[^<>]*>', '', a[1]).rsplit('::', 1)[-1]
+            args = a[2]
+            if meth == 'serialize_newtype_struct' and len(args) == 3 and is_param(args[0], f, 1) and strip(args[1])[0] == 'const' and stored(args[2]):
+                form = 'newtype'
+            elif meth in ('serialize_str', 'collect_str') and len(args) == 2 and is_param(args[0], f, 1) and stored(args[1]):
+                form = 'str'
+            elif meth == 'serialize' and len(args) == 2 and stored(args[0]) and is_param(args[1], f, 1):
+                form = 'str'
+        out.append(form or vstr(a)[:100])
+    return out
+
+
+# ---- the two halves of an API version ----------------------------------------------------------------------------------
+
+def pull_key(v):
+    """canon(v), except that calls of Iterator::next keep their site: two pulls from one iterator are different values"""
+    if not isinstance(v, tuple) or not v:
+        return v
+    if v[0] == 'call' and len(v) == 4:
+        if v[1] == IT + 'next':
+            return ('call', v[1], tuple(pull_key(x) for x in v[2]), v[3])
+        return ('call', v[1], tuple(pull_key(x) for x in v[2]))
+    if v[0] == 'icall' and len(v) == 4:
+        return ('icall', pull_key(v[1]), tuple(pull_key(x) for x in v[2]))
+    return tuple(pull_key(x) if isinstance(x, tuple) else x for x in v)
+
+
+def is_splitn2(v, tf):
+    """v = <param 0 of tf>.splitn(2, '.')"""
+    v = strip(v)
+    return v[0] == 'call' and v[1] == 'core::str::<impl str>::splitn' and len(v[2]) == 3 and is_param(v[2][0], tf, 0) \
+        and strip(v[2][1]) == ('const', 2) and strip(v[2][2]) == ('const', '.')
+
+
+def splitn_halves(prog, sl, tf):
+    """`let mut it = value.splitn(2, '.')` pulled exactly twice, in order: the first item is the text before the first
+    '.' (the whole string when there is none; it always exists, so whatever stands in for a missing item is never used),
+    the second item is the complete remainder and exists iff there is a '.' — the pair split_once('.') yields.
+    Returns ({keys of values denoting the first half}, {keys of values denoting the second half with "0" standing in when
+    it is missing}) or None."""
+    from .lib.tables import arm_defs
+    pl = pulls(sl, tf)
+    if pl is None or not is_splitn2(pl[0], tf) or len(pl[1]) != 2:
+        return None
+    n = [sl._call_value(tf, c, set(), 0) for c in pl[1]]
+    firsts, seconds = {pull_key(('unwrap', n[0]))}, set()
+    for c in tf.calls:
+        if c.indirect or not c.args or not (c.name or '').startswith('std::option::Option::'):
+            continue
+        a0 = sl.operand(tf, c.args[0])
+        meth = c.name.rsplit('::', 1)[-1]
+        if a0 == n[0] and meth in ('unwrap_or', 'unwrap_or_default', 'unwrap_or_else'):
+            firsts.add(pull_key(strip(sl._call_value(tf, c, set(), 0))))
+        if a0 == n[1] and meth == 'unwrap_or' and len(c.args) == 2 and strip(sl.operand(tf, c.args[1])) == ('const', '0'):
+            seconds.add(pull_key(strip(sl._call_value(tf, c, set(), 0))))
+    # `match it.next() { Some(m) => m, None => "0" }` / let-else spellings of the default
+    for loc in range(tf.argc + 1, len(tf.locals)):
+        if len(tf.whole_defs(loc)) != 2:
+            continue
+        some = none = False
+        for bi, v, conds in arm_defs(tf, loc, sl):
+            vs = [cd for cd in conds if cd.kind == 'variant' and cd.subject is not None and cd.subject == n[1]]
+            if v == ('unwrap', n[1]) and any(cd.outcome == frozenset(['Some']) for cd in vs):
+                some = True
+            elif strip(v) == ('const', '0') and any(cd.outcome == frozenset(['None']) for cd in vs):
+                none = True
+        if some and none:
+            seconds.add(pull_key(strip(sl.local(tf, loc))))
+    return (firsts, seconds) if seconds else None
+
+
+def decision_core(v):
+    """the value whose being Some / Ok decides the variant of v: `?` (Try::branch) and adapters that only convert or
+    build the failure value (`ok_or`, `ok_or_else`, `map_err`, `.ok()`) leave success and failure as they were"""
+    for _ in range(12):
+        if v[0] == 'call' and v[2] and (v[1] in _PAYLOAD_KEEPING or v[1] in ('std::ops::Try::branch', 'std::ops::FromResidual::from_residual')):
+            v = v[2][0]
+            continue
+        break
+    return v
+
+
+# ---- "consists of ASCII digits only" --------------------------------------------------------------------------------
+# The sign guard of an integer parse is the statement  D(s): every character of s is an ASCII digit.  It is recognised as
+# a *quantifier* over the characters / bytes of s (all, !any, !contains, find(..).is_none(), trim_*_matches(..).is_empty(),
+# a loop that leaves on the first offending element) applied to a *character predicate*, and the predicate is decided by
+# evaluating it on one representative of every character class — whatever it is built from (`is_ascii_digit`,
+# `is_digit(10)`, `matches!(c, '0'..='9')`, `('0'..='9').contains(&c)`, comparisons).
+
+_DIGITS = frozenset(range(48, 58))
+_CHAR_DOMAIN = tuple(range(0, 128)) + (0x80, 0xE9, 0xFF, 0x0663, 0x0967, 0xFF11, 0x1D7CE, 0x10FFFF)
+_BYTE_DOMAIN = tuple(range(0, 256))
+_SRC_NAMES = ('core::str::<impl str>::bytes', 'core::str::<impl str>::chars')
+_THROUGH = ('core::str::<impl str>::as_bytes', 'std::str::<impl str>::as_bytes', 'core::slice::<impl [T]>::iter', IT + 'copied', IT + 'cloned',
+            'std::iter::IntoIterator::into_iter', IT + 'by_ref', 'std::string::String::as_str', 'std::string::String::as_bytes')
+
+
+def chars_of(v):
+    """s when v iterates the characters / bytes of the string s in order (`s.chars()`, `s.bytes()`, `s.as_bytes().iter()`,
+    with copied / into_iter / by_ref in between), else None"""
+    v = strip(v)
+    seen_src = False
+    for _ in range(8):
+        if v[0] == 'call' and v[2] and v[1] in _SRC_NAMES:
+            return v[2][0]
+        if v[0] == 'call' and v[2] and (v[1] in _THROUGH or (v[1].endswith('::into_iter') and len(v[2]) == 1)):
+            if v[1].endswith('::iter'):
+                seen_src = True
+            v = strip(v[2][0])
+            continue
+        break
+    return v if seen_src else None
+
+
+def _ev(prog, sl, v, subj, ch, PC, depth=0):
+    """value of expression v when the sub-value `subj` (canonical) is the character / byte with code ch: int | bool | None"""
+    if not isinstance(v, tuple) or not v or depth > 12:
+        return None
+    if canon(strip(v)) == subj:
+        return ch
+    k = v[0]
+    if k == 'unwrap' or k == 'updated':
+        return _ev(prog, sl, v[1], subj, ch, PC, depth + 1)
+    if k == 'const':
+        c = v[1]
+        if isinstance(c, bool) or isinstance(c, int):
+            return c
+        if isinstance(c, str) and len(c) == 1:
+            return ord(c)
+        return None
+    if k == 'cast':
+        return _ev(prog, sl, v[1], subj, ch, PC, depth + 1) if str(v[2]) in ('u32', 'u64', 'usize', 'i32', 'i64', 'u16', 'u128', 'char') else None
+    if k == 'un' and v[1] == 'Not':
+        x = _ev(prog, sl, v[2], subj, ch, PC, depth + 1)
+        return (not x) if isinstance(x, bool) else None
+    if k == 'bin':
+        a, b = _ev(prog, sl, v[2], subj, ch, PC, depth + 1), _ev(prog, sl, v[3], subj, ch, PC, depth + 1)
+        if a is None or b is None:
+            return None
+        ops = {'Le': lambda: a <= b, 'Lt': lambda: a < b, 'Ge': lambda: a >= b, 'Gt': lambda: a > b, 'Eq': lambda: a == b, 'Ne': lambda: a != b}
+        if v[1] in ops and isinstance(a, bool) == isinstance(b, bool):
+            return ops[v[1]]()
+        if v[1] in ('BitAnd', 'BitOr') and isinstance(a, bool) and isinstance(b, bool):
+            return (a and b) if v[1] == 'BitAnd' else (a or b)
+        return None
+    if k == 'call' and v[2]:
+        n, a = v[1], v[2]
+        x = _ev(prog, sl, a[0], subj, ch, PC, depth + 1)
+        last = n.rsplit('::', 1)[-1]
+        if n.startswith(('std::char::methods::<impl char>::', 'core::num::<impl u8>::', 'core::char::methods::<impl char>::')) and isinstance(x, int) and not isinstance(x, bool):
+            if last == 'is_ascii_digit' and len(a) == 1:
+                return 48 <= x <= 57
+            if last == 'is_digit' and len(a) == 2 and _ev(prog, sl, a[1], subj, ch, PC, depth + 1) == 10:
+                return 48 <= x <= 57
+            if last == 'is_ascii' and len(a) == 1:
+                return x < 128
+            return None
+        if n.endswith(('::eq', '::ne')) and len(a) == 2:
+            y = _ev(prog, sl, a[1], subj, ch, PC, depth + 1)
+            if x is None or y is None or isinstance(x, bool) != isinstance(y, bool):
+                return None
+            return (x == y) if last == 'eq' else (x != y)
+        if n == 'std::ops::RangeInclusive::<Idx>::contains' and len(a) == 2:
+            r = strip(a[0])
+            y = _ev(prog, sl, a[1], subj, ch, PC, depth + 1)
+            if r[0] == 'call' and r[1] == 'std::ops::RangeInclusive::<Idx>::new' and len(r[2]) == 2 and isinstance(y, int):
+                lo, hi = (_ev(prog, sl, z, subj, ch, PC, depth + 1) for z in r[2])
+                if isinstance(lo, int) and isinstance(hi, int):
+                    return lo <= y <= hi
+            return None
+        return None
+    return None
+
+
+def _lit_holds(prog, sl, l, subj, ch, PC):
+    """truth of one path literal for character ch: True | False | None (not evaluable)"""
+    if l.kind != 'bool':
+        return None
+    x = _ev(prog, sl, l.value, subj, ch, PC)
+    return (x == l.outcome) if isinstance(x, bool) else None
+
+
+def pred_class(PC, p):
+    """'digit' when the one-argument predicate p (closure or fn item over a char / byte) is true exactly for the ASCII
+    digits, 'nondigit' when exactly for everything else; None otherwise (or when it cannot be evaluated)"""
+    prog, sl = PC.prog, PC.sl
+    p = strip(p)
+    if p[0] == 'cast':
+        p = strip(p[1])
+    if p[0] == 'fnitem':
+        return 'digit' if p[1].endswith('::is_ascii_digit') else None
+    if p[0] != 'closure' or p[1] not in prog.fns:
+        return None
+    key = ('predclass', p[1])
+    if key not in PC._cache:
+        PC._cache[key] = None
+        PC._cache[key] = _pred_class(PC, p)
+    return PC._cache[key]
+
+
+def _pred_class(PC, p):
+    prog, sl = PC.prog, PC.sl
+    g = prog.fns[p[1]]
+    if g.argc != 2 or g.ret != 'bool':
+        return None
+    ty = (g.locals[2].get('ty') or '').lstrip('&').replace('mut ', '').strip()
+    dom = _BYTE_DOMAIN if ty == 'u8' else _CHAR_DOMAIN if ty == 'char' else None
+    if dom is None:
+        return None
+    par = ('param', g.path, 1, g.local_name(2))
+    subj = canon(par)
+    body = sl.local(g, 0)
+    ways = None
+    if body[0] == 'phi' or _opaque_phi(body):
+        ways = PC._body_alts(g, {}, True)
+        if ways is None:
+            return None
+    acc = set()
+    for ch in dom:
+        if ways is None:
+            x = _ev(prog, sl, body, subj, ch, PC)
+            if not isinstance(x, bool):
+                return None
+        else:
+            x = False
+            for w in ways:
+                hs = [_lit_holds(prog, sl, l, subj, ch, PC) for l in w]
+                if any(h is None for h in hs):
+                    return None
+                if all(hs):
+                    x = True
+                    break
+        if x:
+            acc.add(ch)
+    digits = {c for c in dom if c in _DIGITS}
+    if acc == digits:
+        return 'digit'
+    if acc == set(dom) - digits:
+        return 'nondigit'
+    return None
+
+
+def digits_quant(PC, v, parsed):
+    """'all' when the boolean v is D(parsed) (every character an ASCII digit), 'some-non' when v is its negation"""
+    prog, sl = PC.prog, PC.sl
+    if v[0] == 'un' and v[1] == 'Not':
+        q = digits_quant(PC, v[2], parsed)
+        return {'all': 'some-non', 'some-non': 'all'}.get(q)
+    if v[0] != 'call' or not v[2]:
+        return None
+    n, a = v[1], v[2]
+    if n in (IT + 'all', IT + 'any') and len(a) == 2:
+        s = chars_of(a[0])
+        if s is None or not same(s, parsed):
+            return None
+        c = pred_class(PC, a[1])
+        if n == IT + 'all':
+            return 'all' if c == 'digit' else None
+        return 'some-non' if c == 'nondigit' else None
+    if n == 'core::str::<impl str>::contains' and len(a) == 2 and same(a[0], parsed):
+        return 'some-non' if pred_class(PC, a[1]) == 'nondigit' else None
+    if n == 'core::str::<impl str>::is_empty' and len(a) == 1:
+        t = strip(a[0])
+        if t[0] == 'call' and t[1] in ('core::str::<impl str>::trim_start_matches', 'core::str::<impl str>::trim_end_matches', 'core::str::<impl str>::trim_matches') \
+                and len(t[2]) == 2 and same(t[2][0], parsed) and pred_class(PC, t[2][1]) == 'digit':
+            return 'all'
+        return None
+    g = prog.fns.get(n)
+    if g is not None and g.ret == 'bool' and g.kind != 'Closure':
+        i = scan_fn(PC, g)
+        if i is not None and i < len(a) and same(a[i], parsed):
+            return 'all'
+    return None
+
+
+def digits_literal(PC, l, parsed):
+    """True: literal l says D(parsed); False: it says not D(parsed); None: it is no such test"""
+    v = l.value
+    if l.kind == 'bool':
+        q = digits_quant(PC, v, parsed)
+        if q is None:
+            return None
+        return (q == 'all') == l.outcome
+    if l.kind == 'variant' and v[0] == 'call' and len(v[2]) == 2 and l.outcome in (frozenset(['None']), frozenset(['Some'])):
+        # s.find(|c| !digit(c)) / s.chars().position(|c| !digit(c)): None iff there is no offending character
+        s = None
+        if v[1] in ('core::str::<impl str>::find', 'core::str::<impl str>::rfind'):
+            s = v[2][0]
+        elif v[1] in (IT + 'find', IT + 'position', IT + 'rposition'):
+            s = chars_of(v[2][0])
+        if s is not None and same(s, parsed) and pred_class(PC, v[2][1]) == 'nondigit':
+            return l.outcome == frozenset(['None'])
+    return None
+
+
+# ---- the same statement established by a loop -------------------------------------------------------------------------
+
+def scan_loops(PC, fn):
+    """[(loop, string value)]: loops `for c in s.chars() / s.bytes()` that leave on the first character that is no ASCII
+    digit: every way round the loop has decided "the element is a digit", and every exit other than exhaustion has decided
+    "it is not" — the exhaustion edge is taken iff D(s)."""
+    prog, sl = PC.prog, PC.sl
+    key = ('scan', fn.path)
+    if key in PC._cache:
+        return PC._cache[key]
+    PC._cache[key] = []
+    out = []
+    for L in _loops(fn, sl):
+        if getattr(L, 'exhaust', None) is None or L.collection is None:
+            continue
+        s = chars_of(L.collection)
+        if s is None:
+            continue
+        if any(c is not L.next_call and c.args and c.decl and c.decl.startswith(IT) and canon(strip(sl.operand(fn, c.args[0]))) == canon(strip(L.collection))
+               for c in fn.calls):
+            continue    # somebody else pulls from the same iterator
+        subj = canon(strip(loop_element(fn, sl, L)))
+
+        def decided(bb, want_digit):
+            # on every way to bb the decisions about the current element hold only for digits (resp. only for non-digits)
+            ps = PC.local_paths(fn, bb)
+            ps = [p for p in (ps or []) if consistent(p)]
+            if not ps:
+                return False
+            dom = _CHAR_DOMAIN
+            digits = {c for c in dom if c in _DIGITS}
+            for p in ps:
+                holds = set(dom)
+                for l in p:
+                    if l.kind != 'bool':
+                        continue
+                    vals = [(ch, _ev(prog, sl, l.value, subj, ch, PC)) for ch in dom]
+                    if any(not isinstance(x, bool) for _, x in vals):
+                        continue
+                    holds &= {ch for ch, x in vals if x == l.outcome}
+                if want_digit and not (holds <= digits):
+                    return False
+                if not want_digit and (holds & digits):
+                    return False
+            return True
+        def decided_edge(b, x):
+            # leaving the loop over the edge b -> x: the decisions on the way to b together with the one taken on the edge
+            ps = PC.local_paths(fn, b)
+            bps = PC._bpaths.get((fn.path, b)) or []
+            if ps is None or len(ps) != len(bps) or not ps:
+                return False
+            dom = _CHAR_DOMAIN
+            digits = {c for c in dom if c in _DIGITS}
+            for lits, bp in zip(ps, bps):
+                el = PC.edge_literal(fn, b, x, bp)
+                if el is False:
+                    continue
+                ways = [tuple(a) for a in el[1]] if isinstance(el, tuple) else [(el,)] if el is not None else [()]
+                for w in ways:
+                    p = tuple(lits) + tuple(w)
+                    if not consistent(p):
+                        continue
+                    holds = set(dom)
+                    for l in p:
+                        if l.kind != 'bool':
+                            continue
+                        vals = [(ch, _ev(prog, sl, l.value, subj, ch, PC)) for ch in dom]
+                        if any(not isinstance(v, bool) for _, v in vals):
+                            continue
+                        holds &= {ch for ch, v in vals if v == l.outcome}
+                    if holds & digits:
+                        return False
+            return True
+        if not L.latches or not all(decided(lb, True) for lb in L.latches):
+            continue
+        exits = [(b, x) for b in L.body for x in fn.succs(b) if x not in L.body and (b, x) != tuple(L.exhaust)
+                 and fn.blocks[x]['t']['t'] != 'unreachable']
+        if not all(decided_edge(b, x) for b, x in exits):
+            continue
+        out.append((L, s))
+    PC._cache[key] = out
+    return out
+
+
+def scanned(PC, fn, bb, parsed):
+    """block bb of fn is reached only through the exhaustion of a digits scan over `parsed`"""
+    return any(same(s, parsed) and _after(fn, L, bb) for L, s in scan_loops(PC, fn))
+
+
+def scan_fn(PC, g):
+    """i when the boolean workspace function g returns true exactly if its i-th argument consists of ASCII digits only,
+    decided by a digits scan: every `true` is returned after the scan's exhaustion, every `false` on leaving it early"""
+    key = ('scanfn', g.path)
+    if key in PC._cache:
+        return PC._cache[key]
+    PC._cache[key] = None
+    res = None
+    loops = scan_loops(PC, g)
+    live = g.reachable(0)
+    defs = [d for d in g.whole_defs(0) if d[1] in live]
+    if len(loops) == 1 and defs and not g.partial_defs(0) and all(d[0] == 'stmt' and d[3]['r'] == 'use' for d in defs):
+        L, s = loops[0]
+        s = strip(s)
+        ok = s[0] == 'param' and s[1] == g.path
+        for d in defs:
+            k = op_const(d[3]['o'])
+            from .lib.mir import const_value
+            val = const_value(k) if k is not None else None
+            if not isinstance(val, bool):
+                ok = False
+            elif val:
+                ok = ok and _after(g, L, d[1])
+            else:
+                ok = ok and d[1] not in L.body and not _after(g, L, d[1]) and all(p in L.body or g.dominates(L.header, p) for p in g.preds()[d[1]])
+        if ok:
+            res = s[2]
+    PC._cache[key] = res
+    return res
+
+
+def scan_step_literal(PC, fn, l, parsed):
+    """l is the decision "the digits scan over `parsed` in fn is exhausted / yields another character" """
+    if l.kind != 'variant' or l.value[0] != 'call' or l.value[1] != IT + 'next' or len(l.value) < 4 or not l.value[2]:
+        return False
+    s = chars_of(l.value[2][0])
+    if s is None or not same(s, parsed):
+        return False
+    return any(l.value[3] == (fn.path, L.next_call.bb) and same(s2, parsed) for L, s2 in scan_loops(PC, fn))
+
+
+# ---- redundant leading zero -----------------------------------------------------------------------------------------
+
+def len_le1(l, parsed):
+    """True: literal l says len(parsed) <= 1; False: it says len(parsed) >= 2; None: neither.  A string of at most one
+    character has no redundant leading zero, and a longer one that starts with '0' has."""
+    v = l.value
+    if l.kind != 'bool' or v[0] != 'bin' or len(v) != 4:
+        return None
+
+    def is_len(x):
+        x = strip(x)
+        return x[0] == 'call' and x[1] in ('core::str::<impl str>::len', 'std::string::String::len') and len(x[2]) == 1 and same(x[2][0], parsed)
+
+    def num(x):
+        x = strip(x)
+        return x[1] if x[0] == 'const' and isinstance(x[1], int) and not isinstance(x[1], bool) else None
+    op, a, b = v[1], v[2], v[3]
+    if is_len(b) and num(a) is not None:
+        a, b = b, a
+        op = {'Lt': 'Gt', 'Gt': 'Lt', 'Le': 'Ge', 'Ge': 'Le'}.get(op, op)
+    if not is_len(a) or num(b) is None:
+        return None
+    k = num(b)
+    # the set of lengths for which the comparison is true must be {0, 1} (or {1}) / its complement {2, 3, ..}
+    table = {('Le', 1): True, ('Lt', 2): True, ('Gt', 1): False, ('Ge', 2): False, ('Eq', 1): True, ('Ne', 1): None}
+    r = table.get((op, k))
+    if r is None:
+        return None
+    if op == 'Eq':
+        return True if l.outcome else None      # len == 1; its negation (0 or >= 2) says nothing
+    return r if l.outcome else (not r)
+
+
+def zero_prefix_literal(l, parsed):
+    """'no' when l says parsed does not start with '0', 'just' when it says parsed == "0", 'other' when it is such a test
+    with the opposite outcome; None: l is no test of a leading zero"""
+    v = l.value
+    if l.kind == 'bool':
+        if is_starts_with(v, parsed, '0'):
+            return 'no' if l.outcome is False else 'other'
+        if is_eq_const(v, parsed, '0'):
+            return 'just' if l.outcome is True else 'other'
+        if v[0] == 'call' and v[1] == 'core::str::<impl str>::is_empty' and len(v[2]) == 1:
+            r = v[2][0]
+            r = r[1] if r[0] == 'unwrap' else r
+            if r[0] == 'call' and r[1] == 'core::str::<impl str>::strip_prefix' and len(r[2]) == 2 and same(r[2][0], parsed) and strip(r[2][1]) == ('const', '0'):
+                return 'just' if l.outcome is True else 'other'
+        return None
+    if l.kind == 'variant' and v[0] == 'call' and v[1] == 'core::str::<impl str>::strip_prefix' and len(v[2]) == 2 and same(v[2][0], parsed) \
+            and strip(v[2][1]) == ('const', '0'):
+        return 'no' if l.outcome == frozenset(['None']) else 'other'
+    return None
+
+
+# ---- components collected into a Vec and taken by position ------------------------------------------------------------
+# `let parts: Vec<&str> = value.split('.').collect();` keeps every component (nothing is mapped, filtered or cut
+# off), so  len(parts) == 3  says "exactly three components" and  parts[0], parts[1], parts[2]  are all of them.
+
+_SEQ_VIEWS = ('std::vec::Vec::<T, A>::as_slice', 'std::ops::Deref::deref', 'std::convert::AsRef::as_ref', 'std::borrow::Borrow::borrow',
+              'core::slice::<impl [T]>::iter')
+
+
+def _seq_base(v):
+    v = strip(v)
+    for _ in range(6):
+        if v[0] == 'call' and v[1] in _SEQ_VIEWS and len(v[2]) == 1:
+            v = strip(v[2][0])
+            continue
+        break
+    return v
+
+
+def collected_components(sl, tf):
+    """the value `split(<argument of tf>, '.').collect::<Vec<&str>>()` when tf collects the components unchanged and
+    that is the only thing it does with the split iterator; else None"""
+    found = []
+    for c in tf.calls:
+        if c.indirect or not c.decl or not c.args:
+            continue
+        if c.decl.startswith(IT) or c.decl == 'std::iter::FromIterator::from_iter':
+            names, src = split_source(sl.operand(tf, c.args[0]))
+            if src[0] == 'call' and src[1] == 'core::str::<impl str>::split':
+                found.append((c, names))
+    if len(found) != 1:
+        return None
+    c, names = found[0]
+    if names or not (c.decl.endswith('::collect') or c.decl.endswith('::from_iter')) or (c.dty or '') not in ('std::vec::Vec<&str>', "std::vec::Vec<&'_ str>"):
+        return None
+    src = split_source(sl.operand(tf, c.args[0]))[1]
+    if not (len(src[2]) == 2 and is_param(src[2][0], tf, 0) and strip(src[2][1]) == ('const', '.')):
+        return None
+    return strip(sl._call_value(tf, c, set(), 0))
+
+
+def slot_of(v, coll):
+    """i when v is element i of the collected sequence `coll`: coll[i], coll.as_slice()[i], a slice-pattern binding"""
+    v = strip(v)
+    key = canon(coll)
+    if v[0] == 'index' and isinstance(v[2], str) and canon(_seq_base(v[1])) == key:
+        import re
+        m = re.fullmatch(r'\[(\d+)\]', v[2])
+        return int(m.group(1)) if m else None
+    if v[0] == 'call' and v[1] in ('std::ops::Index::index',) and len(v[2]) == 2 and canon(_seq_base(v[2][0])) == key:
+        i = strip(v[2][1])
+        return i[1] if i[0] == 'const' and isinstance(i[1], int) and not isinstance(i[1], bool) else None
+    return None
+
+
+def length_is(cd, coll, n):
+    """edge-dominance condition cd says len(coll) == n"""
+    v = cd.value
+    if cd.kind != 'bool' or v is None or v[0] != 'bin' or len(v) != 4 or not isinstance(cd.outcome, bool):
+        return False
+    if not ((v[1] == 'Eq' and cd.outcome) or (v[1] == 'Ne' and not cd.outcome)):
+        return False
+    key = canon(coll)
+    for a, b in ((v[2], v[3]), (v[3], v[2])):
+        if strip(b) != ('const', n):
+            continue
+        a = strip(a)
+        if a[0] == 'un' and a[1] == 'PtrMetadata' and canon(_seq_base(a[2])) == key:
+            return True
+        if a[0] == 'call' and a[1] in ('std::vec::Vec::<T, A>::len', 'core::slice::<impl [T]>::len') and len(a[2]) == 1 and canon(_seq_base(a[2][0])) == key:
+            return True
+    return False
+
+
+def slot_calls(prog, sl, tf, coll):
+    """[(slot index, Call, index of the argument)] for the calls of tf that are handed an element of coll itself"""
+    out = []
+    for c in tf.calls:
+        argv = [sl.operand(tf, a) for a in c.args]
+        flat = []
+        for j, a in enumerate(argv):
+            sa = strip(a)
+            if sa[0] == 'tuple' and j == 1 and len(argv) == 2:      # closure call: arguments as one tuple
+                flat.extend((j2 + 1, x) for j2, x in enumerate(sa[1]))
+            else:
+                flat.append((j, a))
+        for j, a in flat:
+            i = slot_of(a, coll)
+            if i is not None:
+                out.append((i, c, j))
+    return out
+
+
+def pull_slot_calls(prog, sl, tf, pulled):
+    """[(pull index, Call, index of the argument)] for the calls of tf that are handed the item of the i-th `next()`
+    itself (pulled = the next Calls in execution order)"""
+    items = [sl._call_value(tf, c, set(), 0) for c in pulled]
+    out = []
+    for c in tf.calls:
+        if c in pulled:
+            continue
+        argv = [sl.operand(tf, a) for a in c.args]
+        flat = []
+        for j, a in enumerate(argv):
+            sa = strip(a)
+            if sa[0] == 'tuple' and j == 1 and len(argv) == 2:
+                flat.extend((j2 + 1, x) for j2, x in enumerate(sa[1]))
+            else:
+                flat.append((j, a))
+        for j, a in flat:
+            for i, it in enumerate(items):
+                if a[0] == 'unwrap' and strip(a) == it:
+                    out.append((i, c, j))
+    return out
+
+
+def slots_validated(prog, sl, tf, bb, coll, n, is_validator, calls=None):
+    """block bb is reached only when len(coll) == n and, for every i < n, a validator applied to element i succeeded
+    (is_validator(call): an integer parse or a function of the validator region yielding Option<u64>); with `calls`
+    (slot index, Call, argument index) given, only the second half is decided, for those slots"""
+    conds = conditions(tf, bb, sl)
+    if calls is None and not any(length_is(cd, coll, n) for cd in conds):
+        return False
+    if calls is not None:
+        done = set()
+        for cd in conds:
+            if cd.kind != 'variant' or cd.subject is None or cd.outcome not in (frozenset(['Some']), frozenset(['Ok'])):
+                continue
+            c = call_of(prog, cd.subject) if cd.subject[0] == 'call' else None
+            if c is None or c.fn is not tf or not is_validator(c):
+                continue
+            done |= {i for i, c2, j in calls if c2 is c}
+        return done == set(range(n))
+    done = set()
+    for cd in conds:
+        if cd.kind != 'variant' or cd.subject is None or cd.outcome not in (frozenset(['Some']), frozenset(['Ok'])):
+            continue
+        s = cd.subject
+        c = call_of(prog, s) if s[0] == 'call' else None
+        if c is None or c.fn is not tf or not is_validator(c):
+            continue
+        for i, c2, j in slot_calls(prog, sl, tf, coll):
+            if c2 is c:
+                done.add(i)
+    return done == set(range(n))
+
+
+def selected_paths(PC, g, bi, st):
+    """the ways the value assigned by statement st (block bi of g) comes to be used: the paths to it; when the assigned
+    local is only handed, as an eagerly evaluated argument, to a selecting combinator, joined with the ways the
+    combinator yields that argument:  cond.then_some(x): cond;  opt.unwrap_or(x) / opt.map_or(x, f): opt is None / Err.
+    Returns (paths, whether such a combinator selects)"""
+    sl = PC.sl
+    paths = PC.paths(g, bi)
+    dest = st[1]
+    if len(dest) != 1 or dest[0] == 0:
+        return paths, False
+    uses = [u for u in g.uses_of(dest[0]) if u[1] != 'drop' and u[0] in g.reachable(0)]
+    if len(uses) != 1 or uses[0][1] != 'arg' or len(uses[0][4]) != 1:
+        return paths, False
+    c = g.call_at(uses[0][0])
+    ai = uses[0][2]
+    if c is None or c.indirect:
+        return paths, False
+    n = c.name or c.decl or ''
+    meth = n.rsplit('::', 1)[-1]
+    extra = None
+    if n.startswith(('std::option::Option::', 'std::result::Result::')) and ((meth == 'unwrap_or' and ai == 1 and len(c.args) == 2) or
+                                                                             (meth == 'map_or' and ai == 1 and len(c.args) == 3)):
+        extra = failure_ways(PC, sl.operand(g, c.args[0]))
+    elif (n.endswith('bool>::then_some') or n == 'core::bool::<impl bool>::then_some') and ai == 1 and len(c.args) == 2:
+        extra = PC._ways(sl.operand(g, c.args[0]), True)
+    if extra is None:
+        return paths, False
+    return [tuple(p) + tuple(w) for p in PC.paths(g, c.bb) for w in extra], True
+
+
+def self_as_field0(prog, sl, fn, v):
+    """v is `self` of fn seen through the type's own conversions (`self.as_ref()`, `&**self`, `self.borrow()`) — which the
+    value normal form treats as `self` — and every such conversion applied to self in fn returns field 0 of its argument:
+    then what is used is `self.0`"""
+    if not is_param(v, fn, 0):
+        return False
+    convs = []
+    for c in fn.calls:
+        if c.indirect or not c.args or not is_param(sl.operand(fn, c.args[0]), fn, 0) or len(c.args) != 1:
+            continue
+        g = None
+        for n in (c.res, c.name):
+            g = g or (prog.fns.get(n) if n else None)
+        if g is None:
+            continue
+        r = strip(sl.local(g, 0))
+        if not (r[0] == 'field' and r[2] == '0' and is_param(r[1], g, 0)):
+            return False
+        convs.append(g)
+    return bool(convs)
+
+
+def deser_through(prog, sl, ds, accept, depth=3):
+    """like deser_input, with workspace conversions made transparent: the success payload of `deserialize` is
+    conv(x) for a call conv accepted by `accept`, possibly reached through private / trait-impl functions of the
+    workspace that hand their argument on (`impl TryFrom<String> for T { fn try_from(v) { v.parse() } }` behind
+    `#[serde(try_from = "String")]`).  Returns (conv Call, x, String::deserialize Call | None) or None."""
+    nf = sl.mk_unwrap(sl.local(ds, 0), 1)
+    for _ in range(depth + 1):
+        if nf[0] != 'unwrap':
+            return None
+        cv = nf[1]
+        if cv[0] != 'call' or len(cv[2]) != 1:
+            return None
+        conv = call_of(prog, cv)
+        if conv is None:
+            return None
+        if accept(conv):
+            inp = cv[2][0]
+            sc = None
+            if inp[0] == 'unwrap' and inp[1][0] == 'call':
+                c = call_of(prog, inp[1])
+                if c is not None and c.full and 'for std::string::String>::deserialize' in c.full and len(inp[1][2]) == 1 \
+                        and is_param(inp[1][2][0], ds, 0):
+                    sc = c
+            return conv, inp, sc
+        g = prog.fns.get(cv[1])
+        if g is None or g.argc != 1 or g.kind == 'Closure':
+            return None
+        iv = sl.inline_call(cv)
+        if iv is None or iv == cv:
+            return None
+        nf = sl.mk_unwrap(iv, 1)
+    return None
+
+
+# ---- exactness of the leading-zero logic --------------------------------------------------------------------------------
+# The tests that stand between a component and its integer parse must reject exactly the digit strings with a redundant
+# leading zero.  Decided on one representative per class of digit strings: "0", a single non-zero digit, several digits
+# not starting with '0' are to reach the parse; "00" and "01" are not.
+
+ZERO_CLASSES = {'"0"': '0', 'a single digit': '5', 'several digits': '10'}
+ZERO_REJECTS = {'"00"': '00', '"01"': '01'}
+
+
+def _ev_on_string(PC, l, parsed, text):
+    """truth of literal l when the parsed string is the digit string `text`: True | False | None (not evaluable)"""
+    v = l.value
+    dl = digits_literal(PC, l, parsed)
+    if dl is not None:
+        return dl       # text consists of digits
+    if l.kind == 'bool':
+        if is_starts_with(v, parsed, '0'):
+            return text.startswith('0') == l.outcome
+        if is_starts_with(v, parsed, '+') or is_starts_with(v, parsed, '-'):
+            return (not l.outcome)
+        if is_eq_const(v, parsed, '0'):
+            return (text == '0') == l.outcome
+        if v[0] == 'call' and v[1] == 'core::str::<impl str>::is_empty' and len(v[2]) == 1:
+            if same(v[2][0], parsed):
+                return (text == '') == l.outcome
+            r = v[2][0]
+            r = r[1] if r[0] == 'unwrap' else r
+            if r[0] == 'call' and r[1] == 'core::str::<impl str>::strip_prefix' and len(r[2]) == 2 and same(r[2][0], parsed) and strip(r[2][1]) == ('const', '0'):
+                return (text.startswith('0') and text[1:] == '') == l.outcome if text.startswith('0') else None
+        if v[0] == 'bin' and len(v) == 4:
+            def val(x):
+                x = strip(x)
+                if x[0] == 'const' and isinstance(x[1], int) and not isinstance(x[1], bool):
+                    return x[1]
+                if x[0] == 'call' and x[1] in ('core::str::<impl str>::len', 'std::string::String::len') and len(x[2]) == 1 and same(x[2][0], parsed):
+                    return len(text)
+                return None
+            a, b = val(v[2]), val(v[3])
+            ops = {'Le': lambda: a <= b, 'Lt': lambda: a < b, 'Ge': lambda: a >= b, 'Gt': lambda: a > b, 'Eq': lambda: a == b, 'Ne': lambda: a != b}
+            if a is not None and b is not None and v[1] in ops:
+                return ops[v[1]]() == l.outcome
+        return None
+    if l.kind == 'variant' and v[0] == 'call' and v[1] == 'core::str::<impl str>::strip_prefix' and len(v[2]) == 2 and same(v[2][0], parsed) \
+            and strip(v[2][1]) == ('const', '0'):
+        return (frozenset(['Some']) if text.startswith('0') else frozenset(['None'])) == l.outcome or \
+            (('Some' if text.startswith('0') else 'None') in l.outcome)
+    return None
+
+
+def reaches_parse(PC, fn, paths, parsed, text, mentions):
+    """some way to the parse is open for the digit string `text`: True | False | None (a literal about the parsed string
+    on a candidate way could not be evaluated).  mentions(l): literal l is about the parsed string."""
+    unknown = False
+    for p in paths:
+        if not consistent(p):
+            continue
+        ok = True
+        for l in p:
+            if not mentions(l):
+                continue
+            if scan_step_literal(PC, fn, l, parsed):
+                continue        # the digits scan is exhausted: text consists of digits
+            if l.kind == 'variant' and l.outcome == frozenset(['Some']) and (same(l.value, parsed) or (parsed[0] == 'unwrap' and canon(l.value) == canon(parsed[1]))):
+                continue        # "there is a component"
+            t = _ev_on_string(PC, l, parsed, text)
+            if t is None:
+                unknown = True
+                ok = False
+                break
+            if not t:
+                ok = False
+                break
+        if ok:
+            return True
+    return None if unknown else False
+
+
+# ---- Display written piece by piece ---------------------------------------------------------------------------------
+
+_FMT_WRITES = {
+    "std::fmt::Formatter::<'a>::write_str": ('FMTWRITE', 0), "std::fmt::Formatter::<'a>::write_fmt": ('FMTWRITE', 0),
+    "std::fmt::Formatter::<'a>::pad": ('FMTWRITE', 0), 'std::fmt::Write::write_str': ('FMTWRITE', 0),
+    'std::fmt::Write::write_char': ('FMTWRITE', 0), 'std::fmt::Write::write_fmt': ('FMTWRITE', 0),
+    'std::fmt::Display::fmt': ('FMTSHOW', 1),
+}
+
+
+def display_pieces_seq(prog, sl, dsp):
+    """what a Display::fmt writes when it does so by several formatter calls in a row (`write!(f, "{}", a)?;
+    f.write_str(".")?; ..`, through private helpers as well): the pieces of all writes in execution order.  Every
+    write happens on every successful run (must == may: none is conditional or repeated) and goes to fmt's own
+    formatter; `?` between them stops at the first error like a single write_fmt does.  None otherwise."""
+    from .lib.effects import Effects, Link
+    E = Effects(prog, sl, vocab=_FMT_WRITES)
+    must = [e for e in E.expand(dsp, 'must') if e.kind in ('FMTWRITE', 'FMTSHOW')]
+    may = [e for e in E.expand(dsp, 'may') if e.kind in ('FMTWRITE', 'FMTSHOW')]
+
+    def key(e):
+        return tuple((l.call.fn.path, l.call.bb) for l in e.chain if isinstance(l, Link)) + ((e.call.fn.path, e.call.bb),)
+    if not must or {key(e) for e in must} != {key(e) for e in may} or len(may) != len(must):
+        return None
+    out = []
+    for e in must:
+        if e.forall is not None or e.path is None or not is_param(e.path, dsp, 1) or len(e.args) != 2:
+            return None
+        text = strip(e.args[0] if e.kind == 'FMTSHOW' else e.args[1])
+        out.extend(text[1] if text[0] == 'fmt' else [text[1]] if text[0] == 'const' and isinstance(text[1], str) else [text])
+    return out
